@@ -238,11 +238,12 @@ def contracts(tier):
     yield ("IdleHandshakeHandler", "", idle_contract)
     yield ("LinkMaintenanceTimers", "125MHz", timers_contract(125e6, False))
     yield ("LinkMaintenanceTimers", "scaled_200kHz", timers_contract(200e3, True))
+    yield ("LinkMaintenanceTimers", "62.5MHz", timers_contract(62.5e6, False))       # a clock that is not a whole number of MHz
     yield ("USB3LinkLayer", "wiring_timers_125MHz", link_layer_timers(125e6))
     yield ("USB3LinkLayer", "wiring_timers_100MHz", link_layer_timers(100e6))
     if tier == "thorough":
         yield ("LinkMaintenanceTimers", "scaled_200kHz_deep_cover", timers_contract(200e3, True, deep=True))
         yield ("LinkMaintenanceTimers", "250MHz", timers_contract(250e6, False))
-        yield ("LinkMaintenanceTimers", "62.5MHz", timers_contract(62.5e6, False))
+        yield ("LinkMaintenanceTimers", "156.25MHz", timers_contract(156.25e6, False))
         yield ("LinkMaintenanceTimers", "100MHz", timers_contract(100e6, False))
         yield ("LinkMaintenanceTimers", "scaled_1MHz", timers_contract(1e6, False))
